@@ -15,7 +15,7 @@ func main() {
 			"status/running queried from inside and outside, resuming dead/running/normal coroutines; traces compared with the reference evaluator; non-trivial = at least 5 emitted rows or an error outcome; distinct by Gallina term",
 		Modes:     []luaprop.Mode{{Name: "coroutines", Features: f, Weight: 1}},
 		NQuick:    240,
-		NThorough: 6000,
+		NThorough: 2500,
 		Corpus:    corpus,
 		Isolate:   true,
 	})
